@@ -138,6 +138,10 @@ theorem C08_gen_session_resolve_out_router (fuel : Nat) (st : St) (n : Nat) (nd 
     | none => simp
     | some nh => cases hh : firstEnabledIn nd.ifaces nh 0 <;> simp [hh]
 
+/-- Gen obligation: `route != default_route` (RouterARP) compares objects that carry a per-object uuid: a table entry spelled like the
+default entry is not equal to it, so `bestOf` (static vs default BY ORIGIN) is what the look-ups see. -/
+theorem C08_gen_route_entry_identity : Gen.ForwardArp.routeEntryEqualityIsIdentity = true := by decide
+
 /-! ### counter-model: "ask ARP once" is another program and chooses another next hop -/
 
 /-- the program of a `resolve_outbound_transmission_details` that asks ARP for the destination without the on-link test -/
